@@ -374,6 +374,8 @@ def _r113(ctx: Ctx) -> None:
     ctx.need(n_sites >= 3, 'R11.3', root.site, f'only {n_sites} guarded global-generator sites found (expected the '
                                                f'rng=None fallbacks of run_once, generate, fast_choice)')
     ctx.extra['reachable_from_run'] = len(reach)
+    from .c06 import global_state_rule
+    global_state_rule(ctx, 'R11.3', [ci.methods['_run']], 'trials are run')
     # decoders' own generators are seeded from constructor arguments
     for cname in ('SweepDecoder3D', 'RotatedSweepDecoder3D'):
         c = m.cls(cname)
